@@ -109,6 +109,11 @@ func substTypeParams(t types.Type) types.Type {
 	case *types.Map:
 		return types.NewMap(substTypeParams(u.Key()), substTypeParams(u.Elem()))
 	case *types.Named:
+		// a type declared inside a function cannot be named by a contract (package scope): it stands for its
+		// underlying type, with which it shares its representation
+		if o := u.Obj(); o != nil && o.Pkg() != nil && o.Parent() != nil && o.Parent() != o.Pkg().Scope() && o.Parent() != types.Universe {
+			return substTypeParams(u.Underlying())
+		}
 		if ta := u.TypeArgs(); ta != nil && ta.Len() > 0 {
 			args := make([]types.Type, ta.Len())
 			changed := false
@@ -185,6 +190,9 @@ func (fr *Frame) visibleNames(loop *Loop) map[string]types.Type {
 		}
 		if rs := rangedSlice(loop.Header); rs != nil {
 			m["rangeslice"] = rs.Type() // the slice a `for ... range` loop iterates over (often an unnamed call result)
+		}
+		if mapRangeKey(loop.Header) != "" {
+			m["rangeindex"] = types.Typ[types.Int] // entries of the ranged map already visited
 		}
 	}
 	for k, t := range fr.oldTypes {
@@ -358,6 +366,13 @@ func (fr *Frame) resolveName(n string, st *State, loop *Loop, extra map[string]*
 			}
 		}
 	}
+	if loop != nil && n == "rangeindex" {
+		if key := mapRangeKey(loop.Header); key != "" {
+			if t, ok := st.ghost[key]; ok {
+				return t
+			}
+		}
+	}
 	if loop != nil && n == "rangeslice" {
 		if rs := rangedSlice(loop.Header); rs != nil {
 			if _, isConst := rs.(*ssa.Const); isConst {
@@ -409,6 +424,11 @@ func (fr *Frame) resolveName(n string, st *State, loop *Loop, extra map[string]*
 // before it, else in the dominating blocks).
 func (fr *Frame) localValueAt(v *types.Var, site ssa.Instruction, st *State) *Term {
 	x := fr.x
+	if a := fr.varAddr(v); a != nil {
+		if t, ok := st.regs[a]; ok {
+			return x.load(st, t, v.Type())
+		}
+	}
 	scan := func(b *ssa.BasicBlock, from int) *Term {
 		for i := from; i >= 0; i-- {
 			switch ins := b.Instrs[i].(type) {
@@ -456,9 +476,36 @@ func (fr *Frame) localValueAt(v *types.Var, site ssa.Instruction, st *State) *Te
 	return nil
 }
 
+// varAddr: the memory cell of a source variable whose address is taken somewhere in the function (such a variable
+// lives in an Alloc; a reference at its definition names only the initial value), nil for register variables.
+func (fr *Frame) varAddr(v *types.Var) ssa.Value {
+	if fr.fn == nil {
+		return nil
+	}
+	var walk func(fn *ssa.Function) ssa.Value
+	walk = func(fn *ssa.Function) ssa.Value {
+		for _, b := range fn.Blocks {
+			for _, ins := range b.Instrs {
+				if dr, ok := ins.(*ssa.DebugRef); ok && dr.IsAddr && dr.Object() == v {
+					if _, isAlloc := dr.X.(*ssa.Alloc); isAlloc {
+						return dr.X
+					}
+				}
+			}
+		}
+		return nil
+	}
+	return walk(fr.fn)
+}
+
 // localValue: value of source variable v at the head of block hdr.
 func (fr *Frame) localValue(v *types.Var, hdr *ssa.BasicBlock, st *State) *Term {
 	x := fr.x
+	if a := fr.varAddr(v); a != nil {
+		if t, ok := st.regs[a]; ok {
+			return x.load(st, t, v.Type())
+		}
+	}
 	try := func(b *ssa.BasicBlock, onlyPhis bool) *Term {
 		for i := len(b.Instrs) - 1; i >= 0; i-- {
 			switch ins := b.Instrs[i].(type) {
